@@ -199,7 +199,40 @@ def c03_grid(tier="quick", seed=0):
                witness=(bad[2] if bad else None), confirmed=True if bad else None, domain=n) for rn, (n, bad) in sorted(by.items())]
 
 
-FORMS = [
+# a function left abruptly while a statement keeps an internal operand (for-in / for-of iterator, switch discriminant,
+# pending finally) must hand exactly its result to the caller, whatever the call is an operand of
+_EXITS = {
+    "function f(o){ for (var k in o) { return k } }": "a",
+    "function f(o){ for (var v of [1, 2]) { return v } }": 1,
+    "function f(o){ switch (1) { case 1: return 's' } }": "s",
+    "function f(o){ for (var k in o) { try { return k } finally { } } }": "a",
+    "function f(o){ for (var k in o) { for (var v of [1]) { switch (v) { case 1: return k + v } } } }": "a1",
+    "function f(o){ try { for (var k in o) { throw k } } catch (e) { return e } }": "a",
+    "function f(o){ out: for (var k in o) { for (var v of [1, 2]) { break out } } return 'b' }": "b",
+    "function f(o){ var r = ''; for (var v of [1, 2]) { for (var k in o) { continue } r += v } return r }": "12",
+    "var f = (o) => { for (var k in o) { return k } }": "a",
+    "var obj = { m: function (o) { for (var k in o) { return k } } }; var f = function (o) { return obj.m(o) }": "a",
+    "var holder = { get g() { for (var k in {a: 1}) { return k } } }; var f = function (o) { return holder.g }": "a",
+    "var f = function (o) { return [o].map(function (x) { for (var k in x) { return k } })[0] }": "a",
+    "function F(o){ for (var k in o) { this.k = k; return } } var f = function (o) { return new F(o).k }": "a",
+}
+_USES = ["[0, {C}]", "'x' + {C}", "({p: 0, q: {C}})", "(function (a, b) { return [a, b] })(0, {C})", "[{C}, {C}]", "[1].concat([{C}])", "[0, [1, {C}]]", "hostid({C})", "[0, hostid({C})]"]
+
+
+def _exit_forms():
+    import json as _j
+    out = []
+    for fn, res in _EXITS.items():
+        for use in _USES:
+            call = "f({a: 1})"
+            r = _j.dumps(res)
+            want = {"[0, {C}]": f"[0,{r}]", "'x' + {C}": _j.dumps("x" + str(res)), "({p: 0, q: {C}})": '{"p":0,"q":%s}' % r, "(function (a, b) { return [a, b] })(0, {C})": f"[0,{r}]",
+                    "[{C}, {C}]": f"[{r},{r}]", "[1].concat([{C}])": f"[1,{r}]", "[0, [1, {C}]]": f"[0,[1,{r}]]", "hostid({C})": r, "[0, hostid({C})]": f"[0,{r}]"}[use]
+            out.append(f"ASSERT: {fn}; JSON.stringify({use.replace('{C}', call)}) === {_j.dumps(want)}")
+    return out
+
+
+FORMS = _exit_forms() + [
     "var o = {R}; o.__class__", "var o = {R}; delete o._prototype; typeof o", "var o = {R}; for (var k in o) { k } 1",
     "var o = {R}; Object.keys(o).length", "var o = {R}; JSON.stringify(o)", "var o = {R}; o instanceof Object", "var o = {R}; typeof o",
     "var p = {R}; var o = Object.create(typeof p === 'object' ? p : null); o.x", "var o = {R}; o._elements = 5; o._elements",
